@@ -12,7 +12,7 @@ LEVEL_TEXT = ("Static structural proof of necessary conditions: (R19.1) the port
               "the same function; (R19.3) functions that write into the cache are reachable only from inside a "
               "`with CacheLock(...)` body; (R19.4) no `except A or B` handler. Mutual exclusion and crash "
               "consistency as properties of executions, timeouts and refresh intervals are NOT decided.")
-LEVEL_EXTRA = 'Added after the seeded evaluation: (R19.2) the temporary name cannot equal the final name (callers pass a temporary file); (R19.5) the lock file is never removed or renamed; (R19.6) a lock body that fetches from the network keeps write_time on. (R19.7) looking up a version that is missing from the cache folder (re)runs the local population.'
+LEVEL_EXTRA = 'Added after the seeded evaluation: (R19.2) the temporary name cannot equal the final name (callers pass a temporary file); (R19.5) the lock file is never removed or renamed; (R19.6) a lock body that fetches from the network keeps write_time on. (R19.7) looking up a version that is missing from the cache folder (re)runs the local population. (R19.8) only time-recording holders are refused inside the refresh interval; (R19.9) the last-refresh time is read while the lock is held.'
 
 MODULES = ["hed.schema.hed_cache", "hed.schema.hed_cache_lock"]
 HANDLER_MODULES = MODULES + ["hed.schema.hed_schema_io", "hed.schema.schema_io.schema_util"]
@@ -106,8 +106,12 @@ def run(ctx):
                   "__exit__ does not release self.%s on every normal path" % attr,
                   desc="self.%s.release() on every path of __exit__" % attr)
         # nothing releases before acquiring
+        # a release inside __enter__ is legitimate only on a path that leaves by raising (giving the lock back before refusing)
         for (n, c) in v.calls(lambda c: isinstance(c.func, ast.Attribute) and c.func.attr == "release"):
-            ctx.violation("R19.1", enter.qualname, c, loc(enter, c), "__enter__ releases the lock")
+            reach = v.cfg.reachable_from(n, True)
+            ctx.check(v.cfg.exit not in reach, "R19.1", enter.qualname, c, loc(enter, c),
+                      "__enter__ releases the lock on a path that then returns normally: the with-body runs without the lock",
+                      desc="release in __enter__ only before raising")
 
     # ---------------- R19.5: the lock file is never removed (a waiter would lock an unlinked inode)
     ctx.rule("R19.5", "the lock file itself is never deleted or renamed")
@@ -323,3 +327,26 @@ def run(ctx):
               "that was interrupted leaves a non-empty folder (the lock file, some of the schemas, a stale .tmp), and from then on "
               "every load of a version that is not there yet fails with fileNotFound instead of returning the bundled schema",
               desc="missing version triggers (re)population from the bundled schemas")
+
+    # ---------------- R19.8 / R19.9: the refresh-interval test belongs to time-recording holders and is made under the lock
+    ctx.rule("R19.8", "only a holder that records the refresh time (write_time) is refused for being inside the refresh interval")
+    ctx.rule("R19.9", "the last-refresh time is read while the lock is held (acquire dominates the read)")
+    ve = view(ctx, enter)
+    reads = [n_ for (n_, c) in ve.calls(lambda c: call_name(c) == "_read_last_cached_time")]
+    ctx.floor("R19.9", "reads of the last-refresh time in CacheLock.__enter__", len(reads), 1)
+    acqs = [n_ for (n_, c) in ve.calls(lambda c: isinstance(c.func, ast.Attribute) and c.func.attr in ("acquire", "__enter__"))]
+    for r in reads:
+        ctx.check(bool(acqs) and any(ve.dominates(a, r) and a is not r for a in acqs), "R19.9", enter.qualname, r.ast, loc(enter, r.ast),
+                  "the last-refresh time is read before the lock is acquired: a second refresher that passes the test while the first "
+                  "still holds the lock refreshes again as soon as it gets the lock — two refreshes inside one interval",
+                  desc="timestamp read under the lock")
+    # the raise of the interval test
+    thr = [n_ for n_ in ve.cfg.nodes if n_.kind == "cond" and any(isinstance(x, ast.Attribute) and x.attr == "time_threshold" for x in ast.walk(n_.ast))]
+    ctx.floor("R19.8", "refresh-interval tests in CacheLock.__enter__", len(thr), 1)
+    for t_ in thr:
+        same = any(isinstance(x, ast.Attribute) and x.attr == "write_time" for x in ast.walk(t_.ast))
+        g = ve.guard_for(t_, lambda t: any(isinstance(x, ast.Attribute) and x.attr == "write_time" for x in ast.walk(t)))
+        ctx.check(same or (g is not None and g[1] is True), "R19.8", enter.qualname, t_.ast, loc(enter, t_.ast),
+                  "the 'too recent' refusal is applied to every holder, also to the local population from the bundled schemas "
+                  "(write_time=False): after any refresh attempt (even a failed, offline one) an empty or incomplete cache cannot be "
+                  "populated for the whole interval and every load fails with fileNotFound", desc="interval refusal only for write_time holders")
